@@ -17,6 +17,22 @@ let op_epoch_frames t =
   | Some v -> let h = hex_of_bytes (M.le_enc (nat_of_int 8) v) in "epoch_frames " ^ h ^ " " ^ h ^ " " ^ h
   | None -> "epoch_frames untranslated"
 
+(* epoch_ticks sec nsec step rounds: every generated frame takes exactly one reading of a clock that advances by step
+   after each reading; its timestamp is the epoch of that reading *)
+let op_epoch_ticks t =
+  let sec = int_of_string t.(1) and nsec = int_of_string t.(2) and step = int_of_string t.(3) and rounds = int_of_string t.(4) in
+  let b = Buffer.create 256 in
+  Buffer.add_string b "epoch_ticks";
+  let s = ref sec and n = ref nsec in
+  for _ = 1 to 3 * rounds do
+    (match M.epoch (z_of_int !s) (z_of_int !n) with
+     | Some v -> Buffer.add_string b (" " ^ string_of_z v ^ "/1")
+     | None -> Buffer.add_string b " untranslated");
+    n := !n + step;
+    while !n >= 1000000000 do n := !n - 1000000000; incr s done
+  done;
+  Buffer.contents b
+
 let op_tagname t =
   let z = z_of_string t.(1) in
   "tagname " ^ ocaml_string (M.get_tag_name z) ^ " ## tagname " ^ ocaml_string (M.spec_tag_name z)
@@ -51,6 +67,7 @@ let ops : (S.t * (S.t array -> S.t)) list = [
   "epoch", op_epoch;
   "epoch2", op_epoch2;
   "epoch_frames", op_epoch_frames;
+  "epoch_ticks", op_epoch_ticks;
   "tagname", op_tagname;
   "tagname_range", op_tagname_range;
   "enumcheck", op_enumcheck;
